@@ -134,13 +134,15 @@ def center_image(IM, method='com', odd_size=True, square=False, axes=(0, 1),
                    'argument "center" is deprecated, use "method" instead.')
         method = center
 
-    rows, cols = IM.shape
+    rows, cols = shape0 = IM.shape
 
     if odd_size and cols % 2 == 0:
         # drop rightside column
         IM = IM[:, :-1]
         rows, cols = IM.shape
 
+    # rows and columns removed from the top and left sides (for explicit origin)
+    row0 = col0 = 0
     if square and rows != cols:
         # make rows == cols, but maintain approx. center
         if rows > cols:
@@ -148,6 +150,7 @@ def center_image(IM, method='com', odd_size=True, square=False, axes=(0, 1),
             trim = diff // 2
             if trim > 0:
                 IM = IM[trim: -trim]  # remove even number of rows off each end
+                row0 = trim
             if diff % 2:
                 IM = IM[: -1]  # remove one additional row
 
@@ -158,6 +161,7 @@ def center_image(IM, method='com', odd_size=True, square=False, axes=(0, 1),
                 rows -= 1
             xs = (cols - rows) // 2
             IM = IM[:, xs:xs + rows]
+            col0 = xs
 
         rows, cols = IM.shape
 
@@ -166,7 +170,15 @@ def center_image(IM, method='com', odd_size=True, square=False, axes=(0, 1),
         origin = find_origin(IM, method=method, axes=axes, verbose=verbose,
                              **kwargs)
     else:
-        origin = method
+        # explicit origin refers to the input image, account for trimming
+        origin = [None, None]
+        for a, (trimmed, size) in enumerate(zip((row0, col0), shape0)):
+            o = method[a]
+            if o is not None:
+                if o < 0:
+                    o = o + size  # (counted from the end)
+                o = o - trimmed
+            origin[a] = o
 
     centered_data = set_center(IM, origin=origin, crop=crop, axes=axes,
                                order=order, verbose=verbose)
